@@ -189,7 +189,9 @@ def check_cells(ctx, ps, flavour, maxprefix, doc=None, devs=None):
                 call = call_expr + "(" + "".join(a + ", " for a in prefix) + cur
                 code = src + call
                 col = len(call)
-                script = boot.fresh_script(code)
+                # every other cell is analysed under one constant path, as an editor re-analysing the same file does
+                bpath = str(boot.tmp_root() / "c11_buffer.py") if ctx.evaluations % 2 else None
+                script = boot.fresh_script(code, path=bpath)
                 ctx.count()
                 try:
                     sigs = script.get_signatures(line_no, col)
